@@ -2,6 +2,7 @@ import SigHook.Lemmas.RegistrySeq
 import SigHook.Gen.Consts
 import SigHook.Gen.Platform
 import SigHook.Model.Env
+import SigHook.Model.Skel
 /-!
 # C05 — Registry behaves as independent per-signal ordered multisets with unique ids
 
@@ -696,5 +697,12 @@ theorem C05_container_shape :
     Gen.registryTypes = [("ActionId", "u128"), ("ActionId.derives.Ord", "true"),
       ("Slot.actions", "BTreeMap<ActionId,Arc<Action>>"), ("SignalData.signals", "HashMap<c_int,Slot>"),
       ("SignalData.next_id", "u128"), ("SigId.action", "ActionId")] := by decide
+
+/-- **C05.slot_new_skeleton** — tie to the source (regenerated): the disposition the library installs is built
+from a zeroed `sigaction` - its own handler, its own flags (`C05_flags_restart_siginfo`), and therefore an empty
+mask: nothing of the predecessor's (not its flags, not its `sa_mask`) lives on in it. The predecessor is only
+what the installing `sigaction` call hands back. -/
+theorem C05_slot_new_skeleton :
+    SigHook.skelOf "signal-hook-registry/src/lib.rs" "new@SA_RESTART" = ["new.zeroed", "handler", "flags", "install"] := by decide
 
 end SigHook.Registry
